@@ -50,6 +50,9 @@ def run(res, tier, br, model_ok=True, search=False):
                   "/* a block comment on one line made of several words, also wider than eighty columns ok */\n"
                   "int\tf(void)\n{\n\t// inside a function: a comment line of several words, wider than the eighty columns\n"
                   "\t/* inside a function, a one-line block comment of several words beyond eighty columns */\n\treturn (0);\n}\n", 0))
+    # comments and literals of EQUAL width at different places: file level, end of a line, inside a function
+    extra.append(("twin.c", "// {x;} = 0;..\nint\tg_a;\t// top level..\n\nint\tf(char *s)\n{\n\twhile (*s)\t// count it!..\n\t\ts++;\n\t// in a body..\n\tputs(\"0123456789..\");\n"
+                  "\treturn (s[0] == 'q');\n}\n// after it....\n/* blk cmt... */\n", 0))
     bases += extra
     bases += [(n, s, 0) for n, s in (families.repo_samples() if big else families.repo_samples()[::5])]
     for name, src, hl in bases:
@@ -57,7 +60,7 @@ def run(res, tier, br, model_ok=True, search=False):
         if o0 not in ("ok", "fatal"):
             continue
         has_hdr = src.startswith("/* ****")
-        for _ in range(10 if big else (12 if name in ('right.c', 'ctx.c', 'long.c') else 4)):
+        for _ in range(10 if big else (30 if name == 'twin.c' else 12 if name in ('right.c', 'ctx.c', 'long.c') else 4)):
             sw = meta.swap_one(src, rng, header_lines=(11 if has_hdr else 0))
             if not sw:
                 break
